@@ -3,7 +3,9 @@
 DIR="${1:-/repo}"
 export GOFLAGS=-mod=mod GOPROXY=off GOSUMDB=off GOTOOLCHAIN=local GOWORK=off
 OUT=$(mktemp)
-(cd "$DIR" && go test -json -vet=off -count=1 -timeout 25m ./... ) > "$OUT" 2>&1
+# the suite's temporary directories go to a private place, so that concurrent runs do not remove each other's
+T=$(mktemp -d /tmp/vbase-tmp.XXXXXX)
+(cd "$DIR" && TMPDIR="$T" go test -json -vet=off -count=1 -timeout 25m ./... ) > "$OUT" 2>&1
 python3 - "$OUT" <<'PY'
 import json,sys
 base=json.load(open('/root/.vp/BASELINE.json'))
@@ -23,5 +25,5 @@ for t in extra_fail:
 sys.exit(1 if missing else 0)
 PY
 rc=$?
-rm -f "$OUT"; rm -rf /tmp/clover-test* /tmp/export-dir* 2>/dev/null
+rm -f "$OUT"; rm -rf "$T"
 exit $rc
